@@ -46,12 +46,15 @@ theories/Solver.vos theories/Solver.vok theories/Solver.required_vos: theories/S
 theories/SolverProofs.vo theories/SolverProofs.glob theories/SolverProofs.v.beautified theories/SolverProofs.required_vo: theories/SolverProofs.v theories/Base.vo theories/Fringe.vo theories/DP.vo theories/Cache.vo theories/Dom.vo theories/Mdd.vo theories/Solver.vo
 theories/SolverProofs.vio: theories/SolverProofs.v theories/Base.vio theories/Fringe.vio theories/DP.vio theories/Cache.vio theories/Dom.vio theories/Mdd.vio theories/Solver.vio
 theories/SolverProofs.vos theories/SolverProofs.vok theories/SolverProofs.required_vos: theories/SolverProofs.v theories/Base.vos theories/Fringe.vos theories/DP.vos theories/Cache.vos theories/Dom.vos theories/Mdd.vos theories/Solver.vos
+theories/Par.vo theories/Par.glob theories/Par.v.beautified theories/Par.required_vo: theories/Par.v theories/Base.vo theories/Fringe.vo theories/FringeProofs.vo theories/Fringe2.vo theories/DP.vo theories/Cache.vo theories/Dom.vo theories/Mdd.vo theories/Solver.vo
+theories/Par.vio: theories/Par.v theories/Base.vio theories/Fringe.vio theories/FringeProofs.vio theories/Fringe2.vio theories/DP.vio theories/Cache.vio theories/Dom.vio theories/Mdd.vio theories/Solver.vio
+theories/Par.vos theories/Par.vok theories/Par.required_vos: theories/Par.v theories/Base.vos theories/Fringe.vos theories/FringeProofs.vos theories/Fringe2.vos theories/DP.vos theories/Cache.vos theories/Dom.vos theories/Mdd.vos theories/Solver.vos
 theories/Width.vo theories/Width.glob theories/Width.v.beautified theories/Width.required_vo: theories/Width.v theories/Base.vo
 theories/Width.vio: theories/Width.v theories/Base.vio
 theories/Width.vos theories/Width.vok theories/Width.required_vos: theories/Width.v theories/Base.vos
-theories/Run.vo theories/Run.glob theories/Run.v.beautified theories/Run.required_vo: theories/Run.v theories/Base.vo theories/Gap.vo theories/Width.vo theories/Cache.vo theories/Dom.vo theories/DomSpec.vo theories/Fringe.vo theories/FringeProofs.vo theories/Fringe2.vo theories/DP.vo theories/Mdd.vo theories/Viz.vo theories/Table.vo theories/Solver.vo
-theories/Run.vio: theories/Run.v theories/Base.vio theories/Gap.vio theories/Width.vio theories/Cache.vio theories/Dom.vio theories/DomSpec.vio theories/Fringe.vio theories/FringeProofs.vio theories/Fringe2.vio theories/DP.vio theories/Mdd.vio theories/Viz.vio theories/Table.vio theories/Solver.vio
-theories/Run.vos theories/Run.vok theories/Run.required_vos: theories/Run.v theories/Base.vos theories/Gap.vos theories/Width.vos theories/Cache.vos theories/Dom.vos theories/DomSpec.vos theories/Fringe.vos theories/FringeProofs.vos theories/Fringe2.vos theories/DP.vos theories/Mdd.vos theories/Viz.vos theories/Table.vos theories/Solver.vos
+theories/Run.vo theories/Run.glob theories/Run.v.beautified theories/Run.required_vo: theories/Run.v theories/Base.vo theories/Gap.vo theories/Width.vo theories/Cache.vo theories/Dom.vo theories/DomSpec.vo theories/Fringe.vo theories/FringeProofs.vo theories/Fringe2.vo theories/DP.vo theories/Mdd.vo theories/Viz.vo theories/Table.vo theories/Solver.vo theories/Par.vo
+theories/Run.vio: theories/Run.v theories/Base.vio theories/Gap.vio theories/Width.vio theories/Cache.vio theories/Dom.vio theories/DomSpec.vio theories/Fringe.vio theories/FringeProofs.vio theories/Fringe2.vio theories/DP.vio theories/Mdd.vio theories/Viz.vio theories/Table.vio theories/Solver.vio theories/Par.vio
+theories/Run.vos theories/Run.vok theories/Run.required_vos: theories/Run.v theories/Base.vos theories/Gap.vos theories/Width.vos theories/Cache.vos theories/Dom.vos theories/DomSpec.vos theories/Fringe.vos theories/FringeProofs.vos theories/Fringe2.vos theories/DP.vos theories/Mdd.vos theories/Viz.vos theories/Table.vos theories/Solver.vos theories/Par.vos
 theories/Props/C17.vo theories/Props/C17.glob theories/Props/C17.v.beautified theories/Props/C17.required_vo: theories/Props/C17.v theories/Base.vo theories/Gap.vo
 theories/Props/C17.vio: theories/Props/C17.v theories/Base.vio theories/Gap.vio
 theories/Props/C17.vos theories/Props/C17.vok theories/Props/C17.required_vos: theories/Props/C17.v theories/Base.vos theories/Gap.vos
